@@ -273,7 +273,30 @@ func bodyC07(c c07Case, x *vkit.Ctx) {
 	}
 	var sentLog []sent
 	selfAddr := net.UDPAddr{IP: net.IP(n.Serf.Memberlist().LocalNode().Addr), Port: int(n.Serf.Memberlist().LocalNode().Port)}
-	var injectPanic any
+	// Every reply reaches the node the way a packet does: through its transport and
+	// memberlist's single packet-handling goroutine.  That serialises the script with
+	// the node's own loopback ack and with the copies it unwraps from relay envelopes
+	// and sends to itself, exactly as in production (a direct NotifyMsg call from this
+	// goroutine would run concurrently with those and manufacture a race memberlist
+	// never produces).  A panic in the handling (send on a closed stream, second
+	// close) therefore kills the process: crash oracle.
+	deliver := func(serfMsg []byte) {
+		n.Tr.Inject(originIP+fmt.Sprint(":", originPort), append([]byte{8}, serfMsg...)) // 8 = memberlist's user-message type
+	}
+	markers := 0
+	drained := func() bool {
+		// two rounds: whatever the first round's predecessors made the node send to itself is behind the first marker
+		for round := 0; round < 2; round++ {
+			markers++
+			name := fmt.Sprintf("c07-marker-%d", markers)
+			_, evClock, _ := n.Serf.VerifClocks()
+			deliver(mustEncode(serf.VerifMessageUserEventType, &serf.VerifMessageUserEvent{LTime: evClock, Name: name}))
+			if _, ok := waitUserEvent(n, name, 10*time.Second); !ok {
+				return false
+			}
+		}
+		return true
+	}
 	inject := func(ri int, r c07Reply, from string, copies int) {
 		tq := r.Target % nq
 		other := (tq + 1) % nq
@@ -315,19 +338,10 @@ func bodyC07(c c07Case, x *vkit.Ctx) {
 			buf = mustEncode(serf.VerifMessageQueryResponseType, m)
 		}
 		sentLog = append(sentLog, sent{lt, id, r.Ack, from, payload, time.Now()})
-		for k := 0; k < copies && injectPanic == nil; k++ {
-			// the delivery runs in this goroutine: a panic in it (send on a closed
-			// stream, second close) is an observation, not a harness crash
-			func() {
-				defer func() {
-					if p := recover(); p != nil {
-						injectPanic = fmt.Sprintf("%v (reply %d: ack=%v from %q, target query %d, %v after its call)", p, ri, r.Ack, from, tq, time.Since(t0[tq]))
-					}
-				}()
-				n.Delegate.NotifyMsg(buf)
-			}()
+		for k := 0; k < copies; k++ {
+			deliver(buf)
 			if r.Phase != 1 {
-				// the streams have room for one item (one known member): let the readers take it
+				// the streams have room for one item (one known member): let the node handle it and the readers take it
 				runtime.Gosched()
 				time.Sleep(50 * time.Microsecond)
 			}
@@ -367,7 +381,7 @@ func bodyC07(c c07Case, x *vkit.Ctx) {
 			sinkOff = slowMetrics(time.Duration(min(c.SlowSinkUs, 1000))*time.Microsecond, "query_acks", "query_responses")
 			x.Label("slow-metrics-sink-during-burst")
 		}
-		for j := 0; j < 8*max(1, min(r.Copies, 3)) || (time.Now().Before(dl.Add(300*time.Microsecond)) && j < 4000); j++ {
+		for j := 0; j < 8*max(1, min(r.Copies, 3)) || (time.Now().Before(dl.Add(300*time.Microsecond)) && j < 600); j++ {
 			inject(ri, r, fmt.Sprintf("b%d-%d", ri, j), 1)
 		}
 		sinkOff()
@@ -375,10 +389,6 @@ func bodyC07(c c07Case, x *vkit.Ctx) {
 			x.Label("burst-straddles-deadline")
 			hasLate = true
 		}
-	}
-	if injectPanic != nil {
-		x.Violationf("reply-delivery-panics", "delivering a reply panicked: %v", injectPanic)
-		return
 	}
 	// wait for every stream to close
 	closed := make(chan struct{})
@@ -407,13 +417,12 @@ func bodyC07(c c07Case, x *vkit.Ctx) {
 			}
 		}
 	}
-	time.Sleep(2 * time.Millisecond) // relay-wrapped late replies travel through the transport
-
-	// ---- oracle
-	if injectPanic != nil {
-		x.Violationf("reply-delivery-panics", "delivering a reply panicked: %v", injectPanic)
+	if !drained() { // everything injected (and everything unwrapped from relay envelopes) has been handled
+		x.Inconclusive("the node did not work off the injected packets")
 		return
 	}
+
+	// ---- oracle
 	for i := 0; i < nq; i++ {
 		o := obs[i]
 		o.mu.Lock()
